@@ -29,7 +29,7 @@ theorem and_factor_sem (f : Nat → Bool) {x1 x2 y1 y2 a1 a2 b1 b2 : Nat}
 
 /-- two consecutive raw pushes used by the AND-factoring rule -/
 theorem pushTwo_post {b : Builder} (hb : WF b) (a1 a2 b2 : Nat)
-    (h1 : a1 < b.counter) (h2 : a2 < b.counter) (h3 : b2 < b.counter) :
+    (h1 : a1 < b.counter) (h2 : a2 < b.counter) (h3 : b2 < b.counter) (h1n : 2 ≤ a1) :
     WF ((b.pushGate (.xor a2 b2)).2.pushGate (.and a1 (b.pushGate (.xor a2 b2)).1)).2 ∧
     Ext b ((b.pushGate (.xor a2 b2)).2.pushGate (.and a1 (b.pushGate (.xor a2 b2)).1)).2 ∧
     ((b.pushGate (.xor a2 b2)).2.pushGate (.and a1 (b.pushGate (.xor a2 b2)).1)).1 <
@@ -39,9 +39,19 @@ theorem pushTwo_post {b : Builder} (hb : WF b) (a1 a2 b2 : Nat)
         ((b.pushGate (.xor a2 b2)).2.pushGate (.and a1 (b.pushGate (.xor a2 b2)).1)).1
         = (b.sem inp a1 && (b.sem inp a2 ^^ b.sem inp b2)) := by
   have hg1 : opsLt (.xor a2 b2) b.counter := ⟨h2, h3⟩
-  obtain ⟨hwf1, hw1, hsem1⟩ := pushGate_spec hb (.xor a2 b2) hg1
+  obtain ⟨hwf1, hw1, hsem1⟩ := pushGate_spec hb (.xor a2 b2) hg1 (fun _ _ h => by simp at h)
+    (fun _ _ _ h => by simp at h)
   have hext1 := pushGate_ext b (.xor a2 b2)
   have hcnt1 := pushGate_counter b (.xor a2 b2)
+  -- the AND gates after the first push are the old ones: their operands are below the new wire
+  have hold : ∀ (i x' y' : Nat), (b.pushGate (.xor a2 b2)).2.gates[i]? = some (BGate.and x' y') →
+      x' < b.counter ∧ y' < b.counter := by
+    intro i x' y' hi
+    rcases pushGate_getElem? b _ _ i hi with ⟨hil, hio⟩ | ⟨_, hin⟩
+    · have := hb.ops i _ hio
+      simp only [opsLt, counter] at this ⊢
+      omega
+    · simp at hin
   generalize (b.pushGate (.xor a2 b2)) = r at *
   obtain ⟨w, b1⟩ := r
   simp only at hwf1 hw1 hsem1 hext1 hcnt1 ⊢
@@ -49,7 +59,17 @@ theorem pushTwo_post {b : Builder} (hb : WF b) (a1 a2 b2 : Nat)
   have hg2 : opsLt (.and a1 b.counter) b1.counter := by
     show a1 < b1.counter ∧ b.counter < b1.counter
     omega
-  obtain ⟨hwf2, hw2, hsem2⟩ := pushGate_spec hwf1 (.and a1 b.counter) hg2
+  obtain ⟨hwf2, hw2, hsem2⟩ := pushGate_spec hwf1 (.and a1 b.counter) hg2 (fun x y h => by
+    simp only [BGate.and.injEq] at h
+    obtain ⟨rfl, rfl⟩ := h
+    have := hb.shift2
+    simp only [counter] at h1 ⊢
+    omega)
+    (fun _ x y h i x' y' hi hs => by
+      simp only [BGate.and.injEq] at h
+      obtain ⟨rfl, rfl⟩ := h
+      have := hold i x' y' hi
+      rcases hs with ⟨_, e⟩ | ⟨e, _⟩ <;> omega)
   have hext2 := pushGate_ext b1 (.and a1 b.counter)
   have hcnt2 := pushGate_counter b1 (.and a1 b.counter)
   refine ⟨hwf2, hext1.trans hext2, by rw [hw2, hcnt2]; omega, fun inp hi => ?_⟩
@@ -60,6 +80,13 @@ theorem mem_andOrients {x1 x2 y1 y2 a1 a2 b1 b2 : Nat} (h : (a1, a2, b1, b2) ∈
     ((a1 = x1 ∧ a2 = x2) ∨ (a1 = x2 ∧ a2 = x1)) ∧ ((b1 = y1 ∧ b2 = y2) ∨ (b1 = y2 ∧ b2 = y1)) := by
   simp only [andOrients, List.mem_cons, Prod.mk.injEq, List.mem_nil_iff, or_false] at h
   rcases h with h | h | h | h <;> obtain ⟨rfl, rfl, rfl, rfl⟩ := h <;> simp
+
+theorem gateAt_andNorm {b : Builder} (hb : WF b) {w x1 x2 : Nat} (hg : b.gateAt w = some (.and x1 x2)) :
+    x1 ≠ x2 ∧ 2 ≤ x1 ∧ 2 ≤ x2 := by
+  simp only [gateAt] at hg
+  split at hg
+  · simp at hg
+  · exact hb.andNorm _ x1 x2 hg
 
 theorem xorRule1_post {rec : Rec} (hrec : RecOk (· ^^ ·) rec) {b : Builder} (hb : WF b) (x y : Nat)
     (hx : x < b.counter) (hy : y < b.counter) (r : Nat × Builder)
@@ -151,7 +178,12 @@ theorem xorRule1_post {rec : Rec} (hrec : RecOk (· ^^ ·) rec) {b : Builder} (h
         have hp := List.find?_some hfind
         have hab : a1 = b1' := by simpa using hp
         obtain ⟨o1, o2, o3, osem⟩ := orient a1 a2 b1' b2 hmem hab
-        obtain ⟨w1, w2, w3, w4⟩ := pushTwo_post hb a1 a2 b2 o1 o2 o3
+        have hnx := gateAt_andNorm hb hgx
+        have hn1 : 2 ≤ a1 := by
+          rcases (mem_andOrients hmem).1 with ⟨e, _⟩ | ⟨e, _⟩ <;> rw [e]
+          · exact hnx.2.1
+          · exact hnx.2.2
+        obtain ⟨w1, w2, w3, w4⟩ := pushTwo_post hb a1 a2 b2 o1 o2 o3 hn1
         exact ⟨w1, w2, w3, fun inp hi => by rw [w4 inp hi, osem inp hi]⟩
       · simp at h
   · simp at h
